@@ -21,7 +21,7 @@ def repo_root():
 
 
 WRAPS_COMMON = [
-    "pthread_mutex_lock", "pthread_mutex_unlock", "pthread_mutex_trylock", "pthread_once",
+    "pthread_mutex_lock", "pthread_mutex_unlock", "pthread_mutex_trylock", "pthread_once", "pthread_self",
     "pthread_cond_wait", "pthread_cond_timedwait", "pthread_cond_clockwait", "pthread_cond_signal", "pthread_cond_broadcast",
     "pthread_rwlock_rdlock", "pthread_rwlock_wrlock", "pthread_rwlock_unlock",
     "__cxa_guard_acquire", "__cxa_guard_release", "__cxa_guard_abort",
